@@ -709,7 +709,10 @@ pub fn execute_from(ctx: &mut Ctx, eq: &mut EqTable, start: &Start, snapshot: Op
             (None, Start::Initial) => World::initial(),
             (None, Start::Diagram(t)) => World::from_diagram(ctx, t)?,
         };
-        let mut pool: Vec<World> = vec![];
+        // snapshots, each with one action offered at snapshot time that is applied only when the
+        // run later branches back to it (deferred expansion, as a search does with a stored node:
+        // nothing is asked of the state again before the action is applied to it)
+        let mut pool: Vec<(World, Option<Action>)> = vec![];
         let mut snaps = 0usize;
         loop {
             op_index = trace.len();
@@ -765,10 +768,11 @@ pub fn execute_from(ctx: &mut Ctx, eq: &mut EqTable, start: &Start, snapshot: Op
                         w.check_roundtrip(ctx)?;
                     }
                     "!snap" => {
+                        let deferred = if info.finished || info.offered.is_empty() { None } else { Some(info.offered[(snaps * 7 + 3) % info.offered.len()].clone()) };
                         if pool.len() < 16 {
-                            pool.push(w.clone());
+                            pool.push((w.clone(), deferred));
                         } else {
-                            pool[snaps % 16] = w.clone();
+                            pool[snaps % 16] = (w.clone(), deferred);
                         }
                         snaps += 1;
                     }
@@ -778,9 +782,13 @@ pub fn execute_from(ctx: &mut Ctx, eq: &mut EqTable, start: &Start, snapshot: Op
                         if k >= pool.len() {
                             return Err(Stop::Invalid(format!("{}: only {} snapshots", o, pool.len())));
                         }
-                        w = pool[k].clone();
+                        w = pool[k].0.clone();
                         w.cause = Cause::Fork;
                         ctx.stats.inc("fault.fork");
+                        if let Some(a) = pool[k].1.clone() {
+                            ctx.stats.inc("fault.fork.deferred_expansion");
+                            w.apply(ctx, &a, true)?;
+                        }
                     }
                     o => {
                         let a = info.offered.iter().find(|a| a.to_string() == o).ok_or_else(|| Stop::Invalid(format!("action {} is not offered here", o)))?;
